@@ -185,6 +185,9 @@ def parseEv (ws : List String) : Option Ev :=
   | ["H", "drop", h] => h.toNat?.map .handleDrop
   | ["H", "upgradeFailed", h] => h.toNat?.map .upgradeFailed
   | ["H", "alive", h, b] => do some (.probeAlive (← h.toNat?) (← parseBool b))
+  -- a dead letter recorded outside any operation of the script (e.g. by the actor task itself): it belongs
+  -- to no failing return; the sentinel id makes the pairing monitors see it
+  | "H" :: "dead-by-unknown" :: w :: _ => (parseReason w).map (.dead 4000000000)
   | c :: rest =>
     if c.startsWith "C" then do
       let oid ← (c.drop 1).toString.toNat?
